@@ -80,8 +80,8 @@ package types
 //@   ensures[base]  err == nil ==> op != nil && op.TransferAttributes != nil && taOK(op.TransferAttributes) && op.Payload != nil && payloadOK(op.Payload)
 //@   ensures[base]  op != nil ==> err == nil
 //@   ensures[base]  err == nil ==> fresh(op) && fresh(op.TransferAttributes)
-//@   ensures[C07,C01,C03] ccIsIBC(packet) && id.ProtocolId == core.PROTOCOL_IBC && !ccForOrb(packet) ==> op == nil && err != nil && rootErr(err) == core.ErrNoOrbiterPacket
-//@   ensures[C01,C07,C03,C16] err != nil && rootErr(err) == core.ErrNoOrbiterPacket ==> ccIsIBC(packet) && !ccForOrb(packet)
+//@   ensures[C07,C01,C03,C18] ccIsIBC(packet) && id.ProtocolId == core.PROTOCOL_IBC && !ccForOrb(packet) ==> op == nil && err != nil && rootErr(err) == core.ErrNoOrbiterPacket
+//@   ensures[C01,C07,C03,C16,C18] err != nil && rootErr(err) == core.ErrNoOrbiterPacket ==> ccIsIBC(packet) && !ccForOrb(packet)
 //@   ensures[C01,C02,C11,C16] err == nil ==> ccIsIBC(packet) && ccForOrb(packet) && prefixof(denomPrefix(ccIBC(packet).sourcePort, ccIBC(packet).sourceChannel), ccData(packet).Denom) &&
 //@                  tracePath(ccDenom(packet)) == "" && okInt(ccData(packet).Amount) &&
 //@                  op.TransferAttributes.destinationCoin.Denom == ccDenom(packet) && val(op.TransferAttributes.destinationCoin.Amount) == parseInt(ccData(packet).Amount) &&
@@ -91,10 +91,18 @@ package types
 // Before the ICS-20 credit: the passthrough limit is enforced first (nothing moves when it refuses),
 // then the orbiter balance of the transferred denomination is swept to the dust collector.
 //@ macro dustAddr() = moduleAddr(core.DustCollectorName)
+// The passthrough limit in force for a payload adapter (the adapter component's stored parameter, 0 when none is stored).
+//@ smt (declare-fun otherAdapterLimit (Iface) Int)
+//@ macro asAdapter(x) = cast(x, "*keeper/component/adapter.Adapter")
+//@ macro adapterLimit(x) = ite(istype(x, "*keeper/component/adapter.Adapter"), ite(item_set[asAdapter(x).params], item_params[asAdapter(x).params].MaxPassthroughPayloadSize, 0), otherAdapterLimit(x))
 //@ macro opDenom(op) = op.TransferAttributes.destinationCoin.Denom
 //@ func (self PayloadAdapter) BeforeTransferHook(ctx, packet) (err)
 //@   requires[base] packet != nil && packet.TransferAttributes != nil && taOK(packet.TransferAttributes) && packet.Payload != nil && payloadOK(packet.Payload)
 //@   modifies bank
+//@   counts hook_n
+//@   sets-post hook_failed = err != nil
+//@   ensures[C18] len(packet.Payload.Forwarding.PassthroughPayload) > adapterLimit(self) ==> err != nil
+//@   ensures[C18] len(packet.Payload.Forwarding.PassthroughPayload) <= adapterLimit(self) && bal(old(bank), core.ModuleAddress, opDenom(packet)) == 0 ==> err == nil
 //@   ensures[C01,C02,C11] err == nil ==> bank == moveIf(bal(old(bank), core.ModuleAddress, opDenom(packet)) > 0, old(bank), core.ModuleAddress, dustAddr(), opDenom(packet), bal(old(bank), core.ModuleAddress, opDenom(packet)))
 //@   ensures[C03,C07,C18] err != nil ==> bank == old(bank)
 
@@ -107,14 +115,14 @@ package types
 //@   modifies ghosts, packet.TransferAttributes.destinationCoin
 //@   ensures[C01] err == nil ==> bal(bank, core.ModuleAddress, old(opDenom(packet))) == 0
 //@   ensures[C01] err == nil ==> forall d string :: d != old(opDenom(packet)) ==> bal(bank, core.ModuleAddress, d) <= bal(old(bank), core.ModuleAddress, d)
-//@   ensures[C07] wrapped_n == old(wrapped_n) && wrapped_ret == old(wrapped_ret)
+//@   ensures[base] wrapped_n == old(wrapped_n) && wrapped_ret == old(wrapped_ret) && hook_n == old(hook_n) && hook_failed == old(hook_failed)
 
 // The adapter controller behind the adapter's router (implemented by the IBC adapter).
 //@ func (self AdapterController) ParsePacket(ccPacket) (result, err)
 //@   ensures[base] err == nil ==> result != nil && payloadFieldsOK(result.Payload) && !isnil(result.Coin.Amount)
 //@   ensures[base] err == nil ==> fresh(result)
-//@   ensures[C07,C01,C03] ccIsIBC(ccPacket) && !ccForOrb(ccPacket) ==> err != nil && rootErr(err) == core.ErrNoOrbiterPacket
-//@   ensures[C01,C07,C03,C16] err != nil && rootErr(err) == core.ErrNoOrbiterPacket ==> ccIsIBC(ccPacket) && !ccForOrb(ccPacket)
+//@   ensures[C07,C01,C03,C18] ccIsIBC(ccPacket) && !ccForOrb(ccPacket) ==> err != nil && rootErr(err) == core.ErrNoOrbiterPacket
+//@   ensures[C01,C07,C03,C16,C18] err != nil && rootErr(err) == core.ErrNoOrbiterPacket ==> ccIsIBC(ccPacket) && !ccForOrb(ccPacket)
 //@   ensures[C01,C02,C11,C16] err == nil ==> ccIsIBC(ccPacket) && ccForOrb(ccPacket) && prefixof(denomPrefix(ccIBC(ccPacket).sourcePort, ccIBC(ccPacket).sourceChannel), ccData(ccPacket).Denom) &&
 //@                  tracePath(ccDenom(ccPacket)) == "" && okInt(ccData(ccPacket).Amount) && result.Coin.Denom == ccDenom(ccPacket) && val(result.Coin.Amount) == parseInt(ccData(ccPacket).Amount)
 
@@ -124,4 +132,4 @@ package types
 //@   modifies ghosts, transferAttr.destinationCoin
 //@   ensures[C01] err == nil ==> bal(bank, core.ModuleAddress, old(transferAttr.destinationCoin.Denom)) == 0
 //@   ensures[C01] err == nil ==> forall d string :: d != old(transferAttr.destinationCoin.Denom) ==> bal(bank, core.ModuleAddress, d) <= bal(old(bank), core.ModuleAddress, d)
-//@   ensures[C07] wrapped_n == old(wrapped_n) && wrapped_ret == old(wrapped_ret)
+//@   ensures[base] wrapped_n == old(wrapped_n) && wrapped_ret == old(wrapped_ret) && hook_n == old(hook_n) && hook_failed == old(hook_failed)
